@@ -177,7 +177,7 @@ func ruleKeyUpdate(c *Ctx, r *Report) {
 			w := &Walk{Fn: oc, Assume: assumeAll(atomAssume{mValue(cmp), vBool(true)})}
 			reached := false
 			hdr := loopHeaderOf(cmp.Block())
-			w.Visit = func(in ssa.Instruction, _ map[*ssa.Phi]Val) bool {
+			w.Visit = func(in ssa.Instruction, _ Env) bool {
 				if in == firstNonPhi(hdr) {
 					return false
 				}
